@@ -12,7 +12,7 @@ enum Coll {
     Set(BTreeSet<String>),
 }
 
-const VALS: [&str; 6] = ["a", "b", "x y", "", "1", "é"];
+const VALS: [&str; 10] = ["a", "b", "x y", "", "1", "é", "=", "handle:x", "true", "a,b"];
 
 pub fn gen(r: &mut Rng) -> Value {
     if r.chance(1, 6) {
